@@ -243,26 +243,32 @@ def fold(t, ctx, env=None, depth=0):
         raise NotConstant("call of %s" % name)
     if op == "comp":
         kind, elt, iters, conds, cid = t.a
-        if len(iters) != 1:
-            raise NotConstant("nested comprehension")
-        it = iters[0]
+        if not 1 <= len(iters) <= 3:
+            raise NotConstant("comprehension with %d for clauses" % len(iters))
         out = []
-        # elements: zip of constant lists -> the comprehension binds iter(zarg_k, cid); plain iterables bind iter(it, cid)
-        if it.op == "call" and tm.callee_name(it.a[0]) == "builtins.zip":
-            cols = [fold(a, ctx, env, depth + 1) for a in it.a[1]]
-            for row in zip(*cols):
-                e2 = dict(env)
-                for a, v in zip(it.a[1], row):
-                    e2[tm.mk("iter", a, cid).id] = v
-                if all(fold(c, ctx, e2, depth + 1) for c in conds):
-                    out.append(fold(elt, ctx, e2, depth + 1))
-        else:
-            seq = fold(it, ctx, env, depth + 1)
-            for v in seq:
-                e2 = dict(env)
-                e2[tm.mk("iter", it, cid).id] = v
-                if all(fold(c, ctx, e2, depth + 1) for c in conds):
-                    out.append(fold(elt, ctx, e2, depth + 1))
+
+        def rec(k, e):
+            if k == len(iters):
+                if all(fold(c, ctx, e, depth + 1) for c in conds):
+                    out.append(fold(elt, ctx, e, depth + 1))
+                return
+            it = iters[k]
+            # elements: zip of constant lists -> the comprehension binds iter(zarg_k, cid); plain iterables bind iter(it, cid)
+            if it.op == "call" and tm.callee_name(it.a[0]) == "builtins.zip":
+                cols = [fold(a, ctx, e, depth + 1) for a in it.a[1]]
+                for row in zip(*cols):
+                    e2 = dict(e)
+                    for a, v in zip(it.a[1], row):
+                        e2[tm.mk("iter", a, cid).id] = v
+                    rec(k + 1, e2)
+            else:
+                seq = fold(it, ctx, e, depth + 1)
+                for v in seq:
+                    e2 = dict(e)
+                    e2[tm.mk("iter", it, cid).id] = v
+                    rec(k + 1, e2)
+
+        rec(0, dict(env))
         if kind == "list" or kind == "gen":
             return out
         if kind == "set":
